@@ -441,6 +441,7 @@ type frame struct {
 	loopEff         map[*loopInfo]*effects
 	loopPre         map[*loopInfo]*State
 	loopEntry       map[*loopInfo]map[*ssa.Phi]string // value of each header phi when the loop was entered ($entry_<name>)
+	loopVariant     map[*loopInfo]string              // value of the loop's variant (decreases clause) at the loop head
 	callLog         map[string][]callRec
 	sitesCache      map[string][]*ssa.CallCommon
 	preTerm         string // the function's precondition (top frame)
